@@ -3,7 +3,7 @@ real gossip state); used by C04, C11."""
 import random
 from props.gossip_common import *
 
-EPS = ["e", "f", "e1", "E", "a:b", "nt:e"]      # ids with the separator and with letters of the key prefix "endpoint:"
+EPS = ["e", "f", "e1", "E", "a:b", "nt:e", "x_addr"]      # ids with the separator and with letters of the key prefix "endpoint:"
 LOOKUPS = [H(e) for e in EPS]
 
 PROFILE_SYNC = {"min_nodes": 2, "max_nodes": 4, "min_ops": 25, "max_ops": 70,
